@@ -6,7 +6,7 @@ PROPS = 'Props/C08.v'
 
 
 def gen_cases(rng, tier):
-    nbig, nsmall, nwc = (8, 170, 30) if tier == 'quick' else (100, 2000, 300)
+    nbig, nsmall, nwc = (3, 70, 20) if tier == 'quick' else (100, 2000, 300)
     cases = [dict(mode='laws', ops=[dict(op='w', kind=1, seed=rng.randrange(1, 1 << 20), len=wrlib.BS),
                                     dict(op='w', kind=0, seed=0, len=0), dict(op='w', kind=2, seed=3, len=wrlib.BS),
                                     dict(op='w', kind=1, seed=9, len=rng.randrange(1, 5000))])]
@@ -20,6 +20,8 @@ def gen_cases(rng, tier):
         big = i < nbig
         close = rng.random() < 0.8
         ops = wrlib.gen_script(rng, big, nops=(rng.randrange(1, 3) if big else None), close=close, after_close=(close and rng.random() < 0.15))
+        if tier == 'quick':
+            wrlib.cap_total(ops, 2 * wrlib.BS + 700, rng)
         hdr = wrlib.gen_hdr(rng) if rng.random() < 0.8 else None
         cases.append(dict(mode='rt', ops=ops, level=rng.choice([-1, 0, 1, 5, 9, rng.randrange(-1, 10)]), wc=rng.randrange(0, 5), rd=rng.choice([0, 1, 2]),
                           reads=[rng.choice([1000, 4096, 100000])], delay=rng.choice([0, rng.randrange(1, 1000)]), hdr=hdr,
